@@ -250,6 +250,13 @@ func cmdCheck(prop, tier string) int {
 			assumptions = append(assumptions, "spec axiom "+l.Name+": "+l.Src)
 		}
 	}
+	for _, k := range keys {
+		if c := s.specs.Contracts[k]; c != nil {
+			for _, a := range c.Assumed {
+				assumptions = append(assumptions, "assumed in contract of "+k+": "+a)
+			}
+		}
+	}
 	assumptions = append(assumptions, extraAssumptions(prop)...)
 
 	ev := map[string]any{
